@@ -8,6 +8,15 @@ X = "CrossHair symbolic execution of the real functions (z3), bounded; counterex
 S = "own AST-level symbolic interpreter (vlib/pysymex) over the real source + z3, bounded; counterexamples replayed natively"
 
 CHECKS = {
+    "C01": dict(engine="X", technique=X, design="§4 C01",
+                text="Bounded symbolic model checking of the real Visitor on hand-built ast trees (statement kinds per slot bound by the driver over the full cross product; names, every line number and docstring text symbolic) against a reference binding model, plus the visibility decision table and span slicing for all (lineno, endlineno). Hand-built trees are validated against ast.parse of a second rendering on every run. Not a proof: 2 (quick) / 3 (thorough) module-level slots, one nesting level.",
+                note="Trusted: CrossHair models + z3; reference binding model (written from the property statement); hand-built AST == compile() output only validated on the concrete grid and on every counterexample; logging and AliasResolutionError message formatting stubbed."),
+    "C10": dict(engine="S", technique=S, design="§4 C10",
+                text="Bounded symbolic model checking with the repo's own diff._function_incompatibilities interpreted from source over two fully symbolic signatures (names, kinds, defaults, return annotations as z3 terms; validity of the def as a constraint) and a symbolic call; four query families (completeness, rules, identity, precision); every counterexample is replayed with real defs, a real call and griffe.visit + find_breaking_changes. N<=2 parameters (quick), N<=3 (thorough).",
+                note="Trusted: pysymex agrees with CPython on the interpreted subset (differential pass each run), z3 reference binder (validated against real calls on the full grid N<=2 each run)."),
+    "C12": dict(engine="X", technique=X, design="§4 C12",
+                text="Bounded symbolic model checking of parse_google/parse_numpy/parse_sphinx: (a) whole text symbolic up to n characters over the characters the parsers branch on, (b) K lines of vocabulary bodies with every indentation 0..4 and all parser options symbolic, (c) text without section syntax comes back as one text section. Totality, well-formed sections, termination (fuel on docstring.lines indexing), docstring/parent unmodified.",
+                note="Trusted: CrossHair models + z3; regex matching is done by CPython's re on the realised subject (CrossHair's symbolic regex model was measured wrong); docstring_warning/logging stubbed; Docstring value assigned directly (inspect.cleandoc not under test)."),
     "C06": dict(engine="X", technique=X, design="§4 C06",
                 text="Bounded symbolic model checking: every import graph of 3 aliases (+ up to 2 wildcard imports) whose targets are solver-chosen dotted strings over loaded/unloaded modules and defined/undefined names is run through the real resolve_aliases; 'confirmed' means CrossHair exhausted the path tree. Not a proof: graphs with more aliases/modules are outside the bound.",
                 note="Trusted: CrossHair's str/dict models + z3; ModuleFinder pointed at a non-existent path; logging stubbed."),
